@@ -9,6 +9,17 @@ From Verif Require Import gen.FramesGen model.Frames model.Stacked proofs.Stacke
 Import ListNotations.
 Open Scope Z_scope.
 
+(* 0. the periods of the data array: the base span extended by the deepest lag and lead of ANY quantity (endogenous
+      or exogenous variable, shock); every cell an equation can read has a valid non-negative column *)
+Theorem C06_extended_periods_cover : forall b0 b1 lo hi p s,
+  b0 <= p <= b1 -> lo <= s <= hi ->
+  let ps := extended_periods b0 b1 lo hi in
+  In (p + s) ps
+  /\ 0 <= column_of (b0 + lo) (p + s) < Z.of_nat (length ps)
+  /\ nth (Z.to_nat (column_of (b0 + lo) (p + s))) ps 0 = p + s.
+Proof. exact extended_periods_cover. Qed.
+Print Assumptions C06_extended_periods_cover.
+
 (* 1. frames: for EVERY span length n, first period a, break-point vector bp (first entry set, as
       _populate_base_break_points does) and simulation-end rule se, the frames partition the base span in order,
       start exactly at the break points, are non-empty, and the first one starts at the first base period *)
